@@ -123,6 +123,23 @@ class Obs(object):
         self.add('cplx', {'a': a, 'b': b}, '{IMREAL(COMPLEX(va,vb)),IMAGINARY(COMPLEX(va,vb))}', va=a, vb=b)
 
 
+def near_obs(rp, xn, xd, neg, d):
+    """ROUND(x, d) for x = +-xn/xd far from zero, the answer recorded exactly (digit strings of numerator and denominator)"""
+    import math
+    x = (-1 if neg else 1) * xn / xd           # exact: xn < 2^53, xd a power of two
+    rp.set_variable('va', x)
+    rp.set_variable('vd', d)
+    qq = rp.parse('ROUND(va,vd)')
+    r = qq['result']
+    isnum = qq['error'] is None and isinstance(r, (int, float)) and not isinstance(r, bool) and (not isinstance(r, float) or math.isfinite(r))
+    fe = values.flt_exact(float(r)) if isnum else {'neg': False, 'nd': [48], 'dd': [49]}
+    rk = (abs(float(r)).as_integer_ratio()[1].bit_length() - 1) if isnum else 0
+    return {'kind': 'roundnear', 'op': 'roundnear', 'isnum': bool(isnum), 'xn': [ord(c) for c in str(xn)], 'xd': xd, 'xneg': neg, 'd': d,
+            'r': {'neg': fe['neg'], 'nd': fe['nd'], 'dd': fe['dd']}, 'rk': rk,
+            'a': {'neg': False, 'ds': [48]}, 'b': {'neg': False, 'ds': [48]}, 'k': 0,
+            'in': {'x': repr(x), 'digits': d, 'xn': str(xn), 'xd': xd, 'neg': neg}, 'out': repr(r)[:40] if isnum else str(qq)[:60]}
+
+
 def main(tier, replay=None):
     run = core.Run('C17', tier, keep_replays=bool(replay))
     values.TOL[0] = 1e-12     # arguments such as 5.1 are not exact in binary: results carry that noise
@@ -140,6 +157,12 @@ def main(tier, replay=None):
     if replay:
         c = json.load(open(replay))['case']
         i, k = c['in'], c['kind']
+        if k == 'roundnear':
+            o = near_obs(lib.Parser(), int(i['xn']), i['xd'], i['neg'], i['digits'])
+            o['id'] = 1
+            v = core.validate_obs(run, 'Trace_Big', [o], 'replay')
+            core.tally(run, [o], v, 'c17-roundnear')
+            return run.finish()
         F = lambda v: Fraction(v['n'], v['d'])
         N = lambda v: int(''.join(chr(x) for x in v['ds'])) * (-1 if v['neg'] else 1)
         {'round': lambda: O.round(i['f'], F(i['x']), i['d']), 'adj': lambda: O.adj(i['f'], F(i['x']), F(i['s'])),
@@ -231,6 +254,26 @@ def main(tier, replay=None):
         part = obs[k:k + CH]
         v = core.validate_obs(run, 'Trace_C17', part, 'p%d' % (k // CH))
         core.tally(run, part, v, 'c17', key=lambda o: o['kind'] + json.dumps(o['in'], sort_keys=True))
+    # ROUND far from zero with many digits: x * 10^digits between 2^31 and 10^13 (exact arithmetic on digit strings, Trace_Big):
+    # the answer is within half a unit of x
+    import math
+    rp = lib.Parser()
+    near = []
+    for _ in range(400 if quick else 20000):
+        d = rng.randint(2, 7)
+        lo, hi = 2 ** 31 // 10 ** d + 1, 10 ** 13 // 10 ** d
+        xd = rng.choice([1, 2, 4, 8, 16, 64, 1024])
+        n = rng.randint(lo, max(lo + 1, hi - 1))
+        xn = n * xd + rng.randrange(xd)
+        neg = rng.random() < 0.3
+        if xn >= 2 ** 53:
+            continue
+        near.append(near_obs(rp, xn, xd, neg, d))
+    for n, o in enumerate(near, 1):
+        o['id'] = n
+    v = core.validate_obs(run, 'Trace_Big', near, 'roundnear')
+    core.tally(run, near, v, 'c17-roundnear', key=lambda o: json.dumps(o['in'], sort_keys=True))
+    run.extra['round_far_from_zero'] = len(near)
     run.exhaustive = not quick
     run.samples = [obs[10], obs[-1]]
     return run.finish()
